@@ -98,8 +98,11 @@ CHECKS = {
         level_text="For AIMD/Vegas/Gradient/Gradient2/Settable/Fixed and a scripted recorder, bare and under Windowed, Traced and Traced(Windowed): "
                    "around every operation the monitor compares EstimatedLimit() before/after, requires every previously registered listener to "
                    "have been called if it changed, requires the last notified value to equal the new estimate, requires the wrapper's estimate "
-                   "to equal the delegate's, and requires Traced to forward the sample unchanged. Listeners are registered at random points. Exploration.",
-        require=["operations", "estimate_changes", "notifications_checked", "listeners_registered", "traced_forward_checks"],
+                   "to equal the delegate's, and requires Traced to forward the sample unchanged. Listeners are registered at random points. "
+                   "A concurrent variant (2-6 goroutines feeding one sample-driven algorithm, listeners pausing before they record) requires every "
+                   "listener's last value to equal EstimatedLimit() at quiescence. Exploration.",
+        require=["operations", "estimate_changes", "notifications_checked", "listeners_registered", "traced_forward_checks",
+                 "concurrent_cases", "concurrent_listener_final_checks"],
         rule="case = (inner limit kind + valid config, wrapper chain, 40-400 ops: OnSample benign/hostile, SetLimit for settable, late NotifyOnChange); "
              "non-trivial = estimate changed at least once with a listener registered; distinct = distinct (config, wrapper, op count, listener count, last op).",
         assumptions=COMMON_ASSUME,
@@ -234,11 +237,13 @@ CHECKS = {
         pkg="c19", race=False, shards=(6, 16), timeout_s=(600, 3000),
         technique="holder-bracket monitor + every-caller-granted-within-timeout monitor on a synctest virtual clock; real-time stress with stuck-state classification",
         level_text="FixedPool and Pool x {random, FIFO, LIFO}, limit 1-4, callers = limit+1..limit+backlog with PRNG arrival instants (also all "
-                   "simultaneous) and hold times (also zero), time-out above the longest possible wait: a harness bracket counter (a lower bound of the true "
-                   "holders) must never exceed the limit, every caller must be granted and within the time-out of its arrival in exact virtual time. "
+                   "simultaneous) and hold times (also zero), a quarter of the callers cancelling their context while possibly queued, time-out above the "
+                   "longest possible wait (random pools: poll period 0 / 7 ms / long): a harness bracket counter (a lower bound of the true "
+                   "holders) must never exceed the limit, every caller that did not cancel must be granted (queue pools: within the time-out of its arrival, exact "
+                   "virtual time), and once every holder has released nobody may still be inside Acquire. "
                    "A real-time stress tier (zero hold, 300 iterations per caller, time-out 1h) must finish without refusals; a run that stops progressing "
                    "with capacity free is classified as stuck (violation), anything else as inconclusive. Exploration.",
-        require=["virtual_scenarios", "virtual_callers_that_had_to_wait", "virtual_scenarios_reaching_the_limit", "stress_runs", "stress_grants"],
+        require=["virtual_scenarios", "virtual_callers_that_had_to_wait", "virtual_scenarios_reaching_the_limit", "virtual_callers_cancelling_while_queued", "stress_runs", "stress_grants"],
         rule="virtual scenario = (pool kind, ordering, limit, backlog, callers, per-caller arrival/hold/outcome); stress = (same config, real time); "
              "non-trivial = at least one caller had to wait; distinct = distinct (config, first caller).",
         assumptions=COMMON_ASSUME + ["the bracket counter is incremented after Acquire returned and decremented before completion, so it never over-counts holders"],
